@@ -93,24 +93,31 @@ Example c27_oidc_accept_ex :
                     (w_cfg [] [s_alice]) 2000%Z (hdr [120]) = OInvalid RClaims.
 Proof. vm_compute. auto. Qed.
 
-(* Full-strength statement (the property text):
-     forall parse_jwt cfg now vals, cfg_wf cfg = true ->
-       ((exists p, oidc_authenticate parse_jwt cfg now vals = OAccept p)
-        <-> oidc_property parse_jwt cfg now vals)
-   is FALSE for the code as it is, in both directions (see the _refuted theorems).
-   Proved instead:
-   - soundness under [no_empty_entries cfg] (missing part: configurations whose alias or
-     subject list contains the empty string — findings empty_alias_disables_issuer_check,
-     empty_subject_disables_subject_check);
-   - completeness under the two extra conditions the code imposes (nbf not in the future,
-     sub a string when present) — the code is stricter than the text there. *)
-Theorem c27_oidc_sound_partial : forall (parse_jwt : bytes -> token) cfg now vals,
-  cfg_wf cfg = true -> no_empty_entries cfg = true ->
+(* Soundness, full strength (the "only valid credentials" half of the property text): for EVERY
+   configuration, clock value, header list and token.  (Until the fix 8b29193 this needed the
+   hypothesis that the alias and subject lists contain no empty string.) *)
+Theorem c27_oidc_sound : forall (parse_jwt : bytes -> token) cfg now vals,
   (exists p, oidc_authenticate parse_jwt cfg now vals = OAccept p) ->
   oidc_property parse_jwt cfg now vals.
-Proof. exact oidc_sound_partial. Qed.
-Print Assumptions c27_oidc_sound_partial.
+Proof. exact oidc_sound. Qed.
+Print Assumptions c27_oidc_sound.
 
+Example c27_oidc_sound_ex :
+  oidc_authenticate (w_parse (w_claims (JStr s_evil) JAbsent [])) (w_cfg [[]] []) 1000%Z (hdr [120])
+  = OInvalid RIssuer /\
+  oidc_authenticate (w_parse (w_claims (JStr s_main) (JStr s_evil) [])) (w_cfg [] [s_alice; []])
+                    1000%Z (hdr [120])
+  = OInvalid RSubject /\
+  accepted (oidc_authenticate (w_parse (w_claims (JStr s_main) (JStr s_alice) []))
+                              (w_cfg [[]] [s_alice; []]) 1000%Z (hdr [120])) = true.
+Proof. vm_compute. auto. Qed.
+
+(* Completeness, full strength:
+     forall parse_jwt cfg now vals, cfg_wf cfg = true ->
+       oidc_property parse_jwt cfg now vals -> exists p, oidc_authenticate ... = OAccept p
+   is FALSE for the code as it is: the code is stricter than the text in two places (see the
+   _refuted theorems).  Proved instead, under the two extra conditions the code imposes
+   (nbf not in the future, sub a string when present): *)
 Theorem c27_oidc_complete_partial : forall (parse_jwt : bytes -> token) cfg now vals,
   cfg_wf cfg = true ->
   oidc_property parse_jwt cfg now vals ->
@@ -122,7 +129,7 @@ Proof. exact oidc_complete_partial. Qed.
 Print Assumptions c27_oidc_complete_partial.
 
 Theorem c27_oidc_exact_partial : forall (parse_jwt : bytes -> token) cfg now vals,
-  cfg_wf cfg = true -> no_empty_entries cfg = true ->
+  cfg_wf cfg = true ->
   extra_ok (validity_of parse_jwt cfg now vals) = true ->
   accepted (oidc_authenticate parse_jwt cfg now vals)
   = property_literal (validity_of parse_jwt cfg now vals).
@@ -132,32 +139,14 @@ Print Assumptions c27_oidc_exact_partial.
 Example c27_oidc_partial_ex :
   let parse := w_parse (w_claims (JStr s_main) (JStr s_alice) [(k_nbf, JNum 900)]) in
   let cfg := w_cfg [s_evil] [s_alice] in
-  cfg_wf cfg = true /\ no_empty_entries cfg = true /\
+  cfg_wf cfg = true /\
   extra_ok (validity_of parse cfg 1000%Z (hdr [120])) = true /\
   property_literal (validity_of parse cfg 1000%Z (hdr [120])) = true.
 Proof. vm_compute. auto. Qed.
 
-Theorem c27_oidc_sound_refuted_empty_alias :
-  exists parse cfg now vals,
-    cfg_wf cfg = true /\
-    accepted (oidc_authenticate parse cfg now vals) = true /\
-    property_literal (validity_of parse cfg now vals) = false /\
-    flag_empty_alias (validity_of parse cfg now vals) = true.
-Proof. exact oidc_sound_refuted_empty_alias. Qed.
-Print Assumptions c27_oidc_sound_refuted_empty_alias.
-
-Theorem c27_oidc_sound_refuted_empty_subject :
-  exists parse cfg now vals,
-    cfg_wf cfg = true /\
-    accepted (oidc_authenticate parse cfg now vals) = true /\
-    property_literal (validity_of parse cfg now vals) = false /\
-    flag_empty_subject (validity_of parse cfg now vals) = true.
-Proof. exact oidc_sound_refuted_empty_subject. Qed.
-Print Assumptions c27_oidc_sound_refuted_empty_subject.
-
 Theorem c27_oidc_complete_refuted_nbf :
   exists parse cfg now vals,
-    cfg_wf cfg = true /\ no_empty_entries cfg = true /\
+    cfg_wf cfg = true /\
     property_literal (validity_of parse cfg now vals) = true /\
     accepted (oidc_authenticate parse cfg now vals) = false.
 Proof. exact oidc_complete_refuted_nbf. Qed.
@@ -165,24 +154,22 @@ Print Assumptions c27_oidc_complete_refuted_nbf.
 
 Theorem c27_oidc_complete_refuted_sub_type :
   exists parse cfg now vals,
-    cfg_wf cfg = true /\ no_empty_entries cfg = true /\
+    cfg_wf cfg = true /\
     property_literal (validity_of parse cfg now vals) = true /\
     accepted (oidc_authenticate parse cfg now vals) = false.
 Proof. exact oidc_complete_refuted_sub_type. Qed.
 Print Assumptions c27_oidc_complete_refuted_sub_type.
 
-(* the two flags are exactly the ways acceptance can exceed the property text *)
-Theorem c27_flags_complete : forall v,
-  decide v = true -> property_literal v = false ->
-  flag_empty_alias v = true \/ flag_empty_subject v = true.
-Proof. exact flags_complete. Qed.
-Print Assumptions c27_flags_complete.
+(* every configuration the constructor lets through satisfies cfg_wf *)
+Theorem c27_oidc_new_wf : forall main aliases aud subs cic cfg,
+  oidc_new main aliases aud subs cic = Some cfg -> cfg_wf cfg = true.
+Proof. exact oidc_new_wf. Qed.
+Print Assumptions c27_oidc_new_wf.
 
-Theorem c27_flags_sound : forall v,
-  (flag_empty_alias v = true -> vy_iss_wild v = true /\ vy_iss v = false) /\
-  (flag_empty_subject v = true -> vy_sub_wild v = true /\ vy_sub v = false).
-Proof. exact flags_sound. Qed.
-Print Assumptions c27_flags_sound.
+Example c27_oidc_new_ex :
+  oidc_new [] [] s_aud [] [] = None /\ oidc_new s_main [] [] [] [] = None /\
+  oidc_new s_main [[]] s_aud [[]] [] = Some (w_cfg [[]] [[]]).
+Proof. vm_compute. auto. Qed.
 
 (* the record fields mean what the property text says *)
 Theorem c27_record_meaning : forall (parse_jwt : bytes -> token) cfg now vals,
